@@ -32,6 +32,7 @@ PROPS["C03"] = {
     "level_note": "Trusted: Lean kernel; extractor; harness. grpc status.FromError/FromContextError/FromProto are modelled as the three-way split of their source and sampled, not proved. The reset/trailer wire order and position-independence over all interleavings are carried by the ServerConn/ClientStream transition-system theorems.",
     "technique": "Lean 4 proof (case analysis over the status algebra) + flags regenerated from source + lock-step differential through real RPCs",
     "props": ["Goat.Props.C03"],
+    "extra_harness": ["TRACECS"],
     "tie": ["Goat.Tie.C03"],
     "rule": "each case is a distinct (mode, error kind, code, message, details, position) tuple run as a real RPC, or a distinct foreign reply shape; non-trivial = handler error is non-nil or the reply is foreign",
     "modelled_not_verified": COMMON_MNV + ["anypb details compared as (type url, value) pairs; proto strings must be valid UTF-8 to cross a serialising transport"],
@@ -42,6 +43,7 @@ PROPS["C06"] = {
     "level_note": "Trusted: Lean kernel; extractor; harness wire taps (writers serialised so that tap order = channel order). Client-side emission order and the reset-after-trailer order through the single writer are theorems over the ClientStream / ServerConn transition systems.",
     "technique": "Lean 4 proof (induction over handler programs against a protocol automaton) + executable automata as monitors on real wire taps + lock-step of serverStream",
     "props": ["Goat.Props.C06", "Goat.UnaryReply"],
+    "extra_harness": ["TRACECS"],
     "tie": ["Goat.Tie.C06"],
     "rule": "lock-step cases: random handler programs (0-7 operations, random write outcomes) on the real serverStream; wire cases: one per (id, direction) projection of the wire taps of mixed concurrent workloads (3 stream kinds x 8 handler programs x 4 client programs, unary ok/error, cancelled and expired streams), both transport kinds; non-trivial = projection has at least one envelope",
     "modelled_not_verified": COMMON_MNV,
@@ -75,6 +77,7 @@ PROPS["C13"] = {
     "level_note": "Trusted: Lean kernel; extractor; harness. Liveness is stated as enabledness plus a strictly decreasing measure (no fairness formalisation). A crash of the client process is detected by the check script and reported with the sequence in progress.",
     "technique": "Lean 4 proof (inductive invariants over two labelled transition systems) + flags/skeletons regenerated from source + exact lock-step of the real client on bounded-exhaustive and random response sequences",
     "props": ["Goat.MuxThms", "Goat.ClientStreamThms", "Goat.Props.C03"],
+    "extra_harness": ["TRACECS"],
     "tie": ["Goat.Tie.C13"],
     "theorems": ["client_total_no_panic", "client_total_no_panic_without_stats", "no_send_on_closed", "unknown_id_dropped", "extra_envelopes_harmless", "no_fabricated_success",
                  "fail_closes_all", "fail_enabled", "fail_terminates", "remaining_zero", "header_always_released", "recv_never_nil_without_message", "trailer_never_panics",
@@ -113,7 +116,7 @@ PROPS["C19"] = {
 }
 
 PROPS["C09"] = {
-    "extra_harness": ["TRACE"],
+    "extra_harness": ["TRACE", "TRACECS"],
     "level_text": "Theorems (Lean 4, client multiplexer and client stream transition systems, every label sequence, any number of callers): once the read loop has failed, the registry is empty and every call between register and unregister has its done signal raised (fail_closes_all); every call that has not returned has an enabled step of its own that needs neither the read loop nor the transport's read side (fail_enabled) and every such step strictly decreases a natural-number measure, at zero all calls have returned (fail_terminates, remaining_zero); a call that registers after the failure fails at once (late_register_fails); a unary success always stems from an envelope with the call's id that was read before (no_fabricated_success); the stream's terminal result is the verdict on what was read, never EOF without an OK trailer. Negative witness: with the pre-repair check-then-register the late caller hangs (bad_registerChecksErr). Tied to /repo by flags and the multiplexer skeletons, the Mux trace replay, and scenarios on the real client: the read failure injected after EVERY prefix of the response envelope sequence of each scenario, write side failing or writable, four error values incl. io.EOF, calls started before / during / after, and the forced late-register schedule (caller held between id allocation and registration until the failure is logged).",
     "level_note": "Trusted: Lean kernel; extractor; harness. Liveness is enabledness plus a decreasing measure (no fairness formalisation); 'promptly' is checked as 'returns within the hang timeout'.",
     "technique": "Lean 4 proof (inductive invariants + termination measure over the multiplexer LTS) + flags/skeletons + fault enumeration at every prefix and a forced schedule on the real client",
@@ -152,10 +155,10 @@ PROPS["C11"] = {
 }
 
 PROPS["C16"] = {
-    "level_text": "Theorems (Lean 4): the proxy's forwarding decision `forward` (transcribed from forwardRpc) routes to the last element of ProxyNext if any, else to the (rewritten) destination; appends the proxy's name to the route record exactly once and pops ProxyNext; leaves id, status, body, trailer, reset and the remaining header fields as received / as the interceptor left them; never forwards an envelope whose header is missing or whose source differs from the attach name. Over the proxy transition system (any number of connections, re-attachment, dial on demand, failures): for every connection object, written ++ lost-in-failed-write ++ in-flight ++ queued = the sequence of envelopes the serve loop enqueued for it, as an exact list equality (order, no loss, no duplication), the queue never exceeds 16, and if nothing was dropped this equals everything routed to it (proxy_fifo_pair, proxy_exactly_once_below_buffer, proxy_dropped_is_logged). proxy_drop_witness: the 17th envelope to a stuck destination is dropped silently (known finding). Tied to /repo by flags, clientBufferSize, the proxy skeletons and an exact lock-step (`pxseq`): scenarios with 1-8 clients, 1-4 servers, dial on demand, an interceptor family, names from attached/dialable/unknown are fed to a real Proxy one envelope at a time (hook events) and every decision and delivery is compared with the model folded over Proxy.step; end-to-end workloads of C01-C04 run through clients - proxy - Demux - Serve with at most 12 envelopes outstanding per destination, bursts above the buffer compared with the model's drop decisions.",
+    "level_text": "Theorems (Lean 4): the proxy's forwarding decision `forward` (transcribed from forwardRpc) routes to the last element of ProxyNext if any, else to the (rewritten) destination; appends the proxy's name to the route record exactly once and pops ProxyNext; leaves id, status, body, trailer, reset and the remaining header fields as received / as the interceptor left them; never forwards an envelope whose header is missing or whose source differs from the attach name. Over the proxy transition system (any number of connections, re-attachment, dial on demand, failures): for every connection object, written ++ lost-in-failed-write ++ in-flight ++ queued = the sequence of envelopes the serve loop enqueued for it, as an exact list equality (order, no loss, no duplication), the queue never exceeds 16, and if nothing was dropped this equals everything routed to it (proxy_fifo_pair, proxy_exactly_once_below_buffer, proxy_dropped_is_logged). COMPOSITION (Props/C16): the path client k - proxy - host transport - Demux keyed by source - logical connection of k is a reliable ordered virtual connection: what the logical connection has been handed is, in order, a prefix of the forwarded images of the envelopes addressed k -> host that client k wrote (virtual_c2s), and what client k receives from the host is a prefix of what the logical connection accepted (virtual_s2c) - nothing lost in the middle, duplicated, reordered, invented or taken from another client, every field but the two routing fields identical - for every interceptor that leaves k's traffic alone, provided nothing of that pair was dropped and neither name was re-attached; hence a unary call through proxy + demux returns f(its own request) (proxied_unary_end_to_end, instantiating the C01 composition) and the C02 stream views are unchanged (stream_views_modulo_core). Negative witnesses: a drop leaves a gap (drop_breaks_virtual_c2s), a forging interceptor and a re-attached host break the pair. proxy_drop_witness: the 17th envelope to a stuck destination is dropped silently (known finding). Tied to /repo by flags, clientBufferSize, the proxy skeletons and an exact lock-step (`pxseq`): scenarios with 1-8 clients, 1-4 servers, dial on demand, an interceptor family, names from attached/dialable/unknown are fed to a real Proxy one envelope at a time (hook events) and every decision and delivery is compared with the model folded over Proxy.step; end-to-end workloads of C01-C04 run through clients - proxy - Demux - Serve with at most 12 envelopes outstanding per destination, bursts above the buffer compared with the model's drop decisions.",
     "level_note": "Trusted: Lean kernel; extractor; harness. Known finding proxy-drop-above-buffer (#15): printed as KNOWN-FINDING when reproduced in the burst scenarios; any loss below the buffer, reordering or duplication is a violation. An empty non-nil ProxyNext (chains of proxies over by-reference transports) panics the proxy: outside C16's single-proxy quantifier, reported to the maintainers.",
     "technique": "Lean 4 proof (function-level laws + inductive invariant over the proxy LTS with history variables) + exact lock-step of a real Proxy against Proxy.step + end-to-end workloads",
-    "props": ["Goat.ProxyThms", "Goat.UnaryReply"],
+    "props": ["Goat.ProxyThms", "Goat.UnaryReply", "Goat.Props.C16"],
     "tie": ["Goat.Tie.C16"],
     "theorems": ["proxy_route", "proxy_record_once", "proxy_record_once_plain", "proxy_unchanged_otherwise", "forward_table_unchanged_unless_sent", "no_spoof_forwarded_fn",
                  "lts_forward_spec", "proxy_fifo_pair", "proxy_exactly_once_below_buffer", "proxy_dropped_is_logged", "proxy_drop_witness", "reply_swaps", "reset_swaps", "reply_id", "reset_id"],
@@ -188,7 +191,7 @@ PROPS["C18"] = {
 }
 
 PROPS["C02"] = {
-    "extra_harness": ["TRACE"],
+    "extra_harness": ["TRACE", "TRACECS"],
     "level_text": "Theorems (Lean 4): client stream transition system (every label sequence): what successive RecvMsg calls return is exactly the bodies of the incoming envelopes in order up to the first terminal envelope (cs_recv_sequence, cs_eof_complete); RecvMsg returns io.EOF iff the first terminal envelope is an OK trailer that is not a reset (cs_eof_iff_ok_trailer and its one-directional forms); with the re-check in the ctx.Done branch no RecvMsg ever returns the context error unless the caller's context ended - whatever the interleaving of the finishing block with the done-check and the select (cs_never_canceled_after_trailer), and the 'rCh closed but not done' panic is unreachable (cs_no_closed_rch_panic); negative witness cs_window_bug. Composition (Props/C02): for EVERY handler program, feeding what the server's stream object emits into the client's receive path delivers exactly the payloads of the handler's successful SendMsg calls, in order, and ends in io.EOF iff the handler's status is OK (s2c_stream_exact); the handler's RecvMsg sees exactly the caller's messages and then io.EOF after the half-close, and no EOF before it (c2s_stream_exact, c2s_no_premature_eof). Tied to /repo by 5 flags, rCh being unbuffered, the stream skeletons, the serverStream lock-steps (ssrun, ssrecv), the Mux trace replay, and scenarios on the real code: 3 kinds x handler programs x client programs x message counts with the streamSeq monitor on 1-8 (32) concurrent streams, the FORCED WINDOW (RecvMsg held after its done-check until the finishing block has completed; 64 / 1024 repetitions per variant) and randomised yields.",
     "level_note": "Trusted: Lean kernel; extractor; harness. Residual found by the model and not claimed: a SendMsg that fails in the transport after the OK trailer was processed tears the stream down and can still make a concurrent RecvMsg report Canceled (ClientStream.send_teardown_window); a trailer envelope that also carries a body has its body dropped by the client (GOAT's server never emits one).",
     "technique": "Lean 4 proof (inductive invariants over the client-stream LTS; composition by induction over handler programs) + flags/skeletons + forced schedule through yield hooks on the real code",
@@ -205,6 +208,7 @@ PROPS["C07"] = {
     "level_note": "Trusted: Lean kernel; extractor; harness. I2: a receive issued after the cancellation may return an already delivered message. Tolerated and counted, not claimed: when the cancellation races with the stream's own completion (trailer read but not yet recorded) a RecvMsg may report Canceled and the next one io.EOF.",
     "technique": "Lean 4 proof (inductive invariants, rank-based progress over the client-stream LTS) + flags/skeletons + cancellation placed at every position and forced schedules on the real code",
     "props": ["Goat.ClientStreamThms", "Goat.Props.C07"],
+    "extra_harness": ["TRACECS"],
     "tie": ["Goat.Tie.C07"],
     "theorems": ["cancel_fails_recv", "cancel_fails_recv_path", "recv_results_classified", "terminal_sticky", "done_sticky", "at_most_one_reset", "cancel_sends_one_reset",
                  "cancel_before_terminal_sends_one_reset", "no_reset_after_trailer", "finishing_block_once", "no_output_after_unregister"],
@@ -241,7 +245,7 @@ PROPS["C14"] = {
     "technique": "Lean 4 proof (registry-exactness invariants over three transition systems) + regenerated flags/skeletons + trace replays + resource census at quiescent points of long real histories",
     "props": ["Goat.MuxThms", "Goat.ClientStreamThms", "Goat.ServerConnThms", "Goat.Props.C14"],
     "tie": ["Goat.Tie.C14"],
-    "extra_harness": ["TRACE", "TRACESRV"],
+    "extra_harness": ["TRACE", "TRACESRV", "TRACECS"],
     "rule": "one case = one RPC of a history (kind x outcome) or one failed-open / dead-connection instance; non-trivial = outcome other than plain success, or more than one call in the batch",
     "modelled_not_verified": COMMON_MNV,
     "assumptions": ["handlers that never read are sent at most one message (server head-of-line blocking is the C11 known finding)"],
